@@ -499,10 +499,12 @@ class Machine:
             return _ClassRef(self, ci)
         if kind == "assign":
             if q not in self._tables:
+                from types import SimpleNamespace as _NS
                 from .sym import Evaluator, TRUE
                 m, node = self.index.need_assign(modname, name)
-                v = Evaluator(self.index, m, node, f"{modname}:<module>", None).ev(node, TRUE)
-                self._tables[q] = self.ev(v, {}, None)
+                ev_ = Evaluator(self.index, m, node, f"{modname}:<module>", None)
+                v = ev_.ev(node, TRUE)
+                self._tables[q] = self.ev(v, {}, _NS(lambdas=ev_.lambdas, loops=ev_.loops))
             return self._tables[q]
         raise Unknown(f"global of kind {kind}")
 
